@@ -6,6 +6,7 @@
 //!   <id> cf <ColorFormat> <payload>        `ColorFormat::decode`
 //!   <id> cfi <ColorFormat> <data> <pal>    `ColorFormat::decode_indexed`
 //!   <id> ci8 <w> <h> <palette> <image>     CI8 image + RGB5A3 palette through a single-image TPL
+//!   <id> tplx <fmt> <w> <h> <pal> <image>  any TPL image format through a single-image TPL (mostly rejected)
 //!   <id> probe <fmt> <w> <h>               payload-size probe (all-zero payload of the exact size / one byte less)
 //! Implementation line: `<id> <dev|release> ok <hex>` | `… err <Class>` | `… panic`.
 #![allow(unused)]
@@ -46,6 +47,13 @@ struct Gen {
 impl Gen {
     fn push(&mut self, body: String) {
         self.lines.push(format!("c19.{:06} {}", self.n, body));
+        self.n += 1;
+    }
+    /// One case of several calls made one after the other on the same thread.
+    fn push_seq(&mut self, bodies: Vec<String>) {
+        for b in bodies {
+            self.lines.push(format!("c19.{:06} {}", self.n, b));
+        }
         self.n += 1;
     }
 }
@@ -401,11 +409,48 @@ pub fn gen(seed: u64, tier: &str) -> Vec<String> {
         }
     }
     for (w, h) in sizes {
-        let entries = *rng.pick(&[1usize, 2, 7, 16, 256]);
-        let aw = (w as usize + 7) / 8 * 8;
-        let ah = (h as usize + 3) / 4 * 4;
-        let image: Vec<u8> = (0..aw * ah).map(|_| rng.below(entries as u64) as u8).collect();
+        // short palettes; padding texels (outside w x h) take any byte, in particular >= the palette length
+        let entries = *rng.pick(&[1usize, 2, 7, 16, 255, 256]);
+        let image = texc::ci8_plane(&mut rng, w, h, entries);
         g.push(format!("ci8 {} {} {} {}", w, h, hex(&rng.bytes(entries * 2)), hex(&image)));
+    }
+    // H. second use on the same thread (one case id = calls made one after the other): a TPL image of
+    //    another block shape and the same block-aligned size (rejected after de-blocking), then the CI8
+    //    image; both orders; other dimensions in between; and 3DS decodes of changing format / size
+    {
+        let shapes: Vec<(u32, u32)> = if thorough { vec![(8, 8), (16, 8), (5, 7), (13, 4), (8, 4), (24, 12), (3, 3), (64, 64), (33, 9)] } else { vec![(8, 8), (16, 8), (5, 7), (13, 4)] };
+        for (w, h) in shapes {
+            let (aw, ah) = ((w + 7) / 8 * 8, (h + 3) / 4 * 4);
+            for other in [5u32, 6, 3, 0, 8, 14, 1, 7] {
+                if !thorough && (other == 8 || other == 14 || other == 7) {
+                    continue;
+                }
+                let entries = *rng.pick(&[2usize, 16, 255]);
+                let ci8 = format!("ci8 {} {} {} {}", w, h, hex(&rng.bytes(entries * 2)), hex(&texc::ci8_plane(&mut rng, w, h, entries)));
+                let oth = format!("tplx {} {} {} {} {}", other, aw, ah, hex(&rng.bytes(8)), hex(&rng.bytes(texc::tpl_image_bytes(other, aw, ah))));
+                if other % 2 == 1 {
+                    g.push_seq(vec![oth, ci8]);
+                } else {
+                    let mid = format!("ci8 {} {} {} {}", w + 8, h, hex(&rng.bytes(4)), hex(&texc::ci8_plane(&mut rng, w + 8, h, 2)));
+                    g.push_seq(vec![ci8.clone(), oth.clone(), ci8.clone(), mid, oth, ci8]);
+                }
+            }
+        }
+        for _ in 0..(if thorough { 40 } else { 8 }) {
+            let mut bodies = Vec::new();
+            let (w, h) = (*rng.pick(&[8u32, 16]), *rng.pick(&[8u32, 16]));
+            for k in 0..4 {
+                let fmt = *rng.pick(&[0u32, 2, 3, 4, 5, 7, 8, 12, 13, 14, 1]);
+                let (w2, h2) = if k == 2 { (h * 2, w) } else { (w, h) };
+                let len = need(fmt, w2, h2);
+                if (fmt == 12 || fmt == 13) && k % 2 == 1 {
+                    // a failing (short data: panic) direct call before an ordinary one
+                    bodies.push(format!("etc {} {} {} {}", (fmt == 13) as u8, w2, h2, hex(&rng.bytes(len / 2))));
+                }
+                bodies.push(format!("px {} {} {} {}", fmt, w2, h2, hex(&rng.bytes(len))));
+            }
+            g.push_seq(bodies);
+        }
     }
     // sentinel palettes / index planes: all-zero and all-ones palettes, constant index planes,
     // index 0 / 255 with a full palette
@@ -501,6 +546,13 @@ pub fn run_line(_st: &mut super::State, line: &str) -> String {
         "ci8" => {
             let (w, h) = (f[2].parse::<u32>().unwrap(), f[3].parse::<u32>().unwrap());
             let t = texc::Tex { name: String::new(), w, h, fmt: 9, payload: unhex(f[5]), palette: unhex(f[4]) };
+            let mut rng = Rng::new(0);
+            let b = texc::build_tpl(&[t], &mut rng, false);
+            single_texture(no_panic(|| tpl::Tpl::extract_textures(&b.file)), w, h)
+        }
+        "tplx" => {
+            let (fmt, w, h) = (f[2].parse::<u32>().unwrap(), f[3].parse::<u32>().unwrap(), f[4].parse::<u32>().unwrap());
+            let t = texc::Tex { name: String::new(), w, h, fmt, payload: unhex(f[6]), palette: unhex(f[5]) };
             let mut rng = Rng::new(0);
             let b = texc::build_tpl(&[t], &mut rng, false);
             single_texture(no_panic(|| tpl::Tpl::extract_textures(&b.file)), w, h)
